@@ -110,6 +110,33 @@ impl<'a> Job<'a> {
     }
 }
 
+impl<'a> Job<'a> {
+    fn stream(&mut self, syms: &[&str]) {
+        self.states += 1;
+        let toks = stream::htoks(syms);
+        let lang = self.lang;
+        for t in [0.0, 10.0, f64::NAN] {
+            self.transitions += 3;
+            self.traces += 3;
+            let r = guard(|| {
+                let a = find_numbers(toks.iter(), lang, t).len();
+                let b = find_numbers_iter(toks.iter(), lang, t).count();
+                let c = replace_numbers_in_stream(toks.clone(), lang, t).len();
+                (a, b, c)
+            });
+            match r {
+                Ok(x) => {
+                    self.outcomes.insert(h64(&x));
+                }
+                Err(p) => {
+                    let input = serde_json::to_string(syms).unwrap();
+                    self.viol("find_tokens", &input, Some(t), "returns (no panic)", "a list", &p)
+                }
+            }
+        }
+    }
+}
+
 fn atoms_b(l: L) -> Vec<String> {
     let mut a = vocab::sigma_full(l);
     for x in ["", "-", "--", "-a", "a-"] {
@@ -231,6 +258,27 @@ pub fn child(args: &[String]) -> i32 {
                 });
             }
         }
+        "d" => {
+            // token streams with hints ('~' unrelated to its predecessor, '!' not a number part) through the
+            // three token-stream entry points
+            let c = vocab::cls(l);
+            let mut words: Vec<String> = vec![c.one, c.tens, c.conj, c.sep, c.hundred, c.small_ord, c.zero, c.ordinary, c.unit, c.thousand, ",".to_string(), c.teen];
+            words.extend(vocab::sigma_full(l).into_iter().filter(|w| w.ends_with('-') || w.starts_with('-') || w.ends_with("und") || w.ends_with("en") && w.len() <= 5).take(3));
+            let mut syms: Vec<String> = words.clone();
+            syms.extend(words.iter().map(|w| format!("~{w}")));
+            syms.extend(words.iter().map(|w| format!("!{w}")));
+            let n = syms.len();
+            let k = tier.pick(3usize, 4);
+            for first in 0..n {
+                if first % nshards != shard {
+                    continue;
+                }
+                for_each_seq(n, k, first, &mut |idx| {
+                    let refs: Vec<&str> = idx.iter().map(|&i| syms[i].as_str()).collect();
+                    job.stream(&refs);
+                });
+            }
+        }
         _ => {
             job.thrs = &T_C;
             for (i, s) in long_inputs(l, tier.pick(3000, 20_000)).iter().enumerate() {
@@ -310,12 +358,14 @@ pub fn run(tier: Tier) -> i32 {
     let exe = std::env::current_exe().unwrap().to_string_lossy().to_string();
     let mut jobs: Vec<Vec<String>> = vec![];
     for l in langs::ALL {
-        for part in ["a", "b", "c"] {
+        for part in ["a", "b", "c", "d"] {
             let nsh = match (part, tier) {
                 ("a", Tier::Quick) => 4,
                 ("a", Tier::Thorough) => 16,
                 ("b", Tier::Quick) => 2,
                 ("b", Tier::Thorough) => 16,
+                ("d", Tier::Quick) => 2,
+                ("d", Tier::Thorough) => 8,
                 _ => 8,
             };
             for sh in 0..nsh {
@@ -412,7 +462,7 @@ pub fn run(tier: Tier) -> i32 {
     acc.nontrivial = acc.states;
     let cov = json!({
         "exhaustive": true,
-        "rule": "(a) every string of length <= k over 21 characters; (b) every sequence of <= k atoms over the full vocabulary plus {\"\",-,--,-a,a-} joined by space and by hyphen; (c) a fixed smoke list of long inputs (NOT an exhaustive space); each x 7 languages x {text2digits, replace_numbers_in_text, find_numbers, find_numbers_iter drained, replace_numbers_in_stream} x thresholds; get_interpreter_for on the strings of (a)",
+        "rule": "(a) every string of length <= k over 21 characters; (b) every sequence of <= k atoms over the full vocabulary plus {\"\",-,--,-a,a-} joined by space and by hyphen; (c) a fixed smoke list of long inputs (NOT an exhaustive space); (d) every token stream of <= k tokens over class words and compound fragments, each plain, '~' or '!' hinted, through find_numbers, find_numbers_iter and replace_numbers_in_stream; each x 7 languages x {text2digits, replace_numbers_in_text, find_numbers, find_numbers_iter drained, replace_numbers_in_stream} x thresholds; get_interpreter_for on the strings of (a)",
         "characters": CHARS.iter().map(|c| format!("U+{:04X}", *c as u32)).collect::<Vec<_>>(),
         "bounds": {"a_max_len": tier.pick(4, 6), "a_len6_thresholds": "0, NaN only", "b_max_atoms": tier.pick(2, 3), "c_repetitions": tier.pick(3000, 20_000)},
         "thresholds": THRS.iter().map(|t| thr_name(*t)).collect::<Vec<_>>(),
